@@ -58,6 +58,7 @@ def gen_cases(tier, seed):
         cases.append({"shells": shells, "eri": eri, "seed": [seed, i], "factor": f, "share": float(rng.uniform(-0.5, 1.5)), "target": (1 if i % 3 == 1 else 0),
                       "classes": [gcls, "factor:%g" % f, "types:" + "".join(tp)] + (["with-eri"] if eri else []),
                       "cost": 60 + (sum(bases.nfunc(s, "c") for s in shells) ** 4 / 20 if eri else 0)})
+    cases += bases.argrep_variants("C13", seed, tier, cases, 8, ok=lambda c: "shells" in c and c.get("kind") in (None, "whole", "kernel", "perm", "real"))  # constructor arguments in other in-memory representations
     return cases
 
 
